@@ -288,7 +288,17 @@ func sortedBoolKeys(m map[string]bool) []string {
 func (ex *Explorer) wantSample() bool {
 	ex.mu.Lock()
 	defer ex.mu.Unlock()
-	return len(ex.stats.Samples) < ex.maxSamples
+	ex.pathSeq++
+	if len(ex.stats.Samples) >= ex.maxSamples {
+		return false
+	}
+	if len(ex.stats.Samples) < 1 {
+		return true
+	}
+	// seeded, sparse choice of further paths
+	h := uint64(ex.pathSeq)*0x9E3779B97F4A7C15 + uint64(ex.sampleSeed)*0xBF58476D1CE4E5B9
+	h ^= h >> 29
+	return h%5 == 0
 }
 
 func absPath(p string) string {
